@@ -226,7 +226,7 @@ impl Prop for Converge {
         "converge"
     }
     fn cases(&self, tier: Tier) -> u64 {
-        tier.pick(300_000, 9_000_000)
+        tier.pick(300_000, 3_000_000)
     }
     fn strategy(&self, tier: Tier) -> BoxedStrategy<Case> {
         let shape = HistoryShape::default_for(tier);
@@ -374,7 +374,7 @@ impl Prop for CleanupPart {
         "cleanup"
     }
     fn cases(&self, tier: Tier) -> u64 {
-        tier.pick(180_000, 6_000_000)
+        tier.pick(180_000, 2_000_000)
     }
     fn strategy(&self, tier: Tier) -> BoxedStrategy<CleanupCase> {
         let shape = HistoryShape::default_for(tier);
